@@ -608,7 +608,9 @@ Verdict judge(const Plan &plan, const sim::Shm *shm, const ChildExit &ex, const 
     }
 
     // ---- pipeline scan: mutual exclusion, entries, deliveries ---------------------
-    int current = -1; // call id inside the pipeline
+    const int NONE = -0x7fffffff;
+    int current = NONE; // call id inside the pipeline (-1: a message that is not the plan's, e.g. a Qt warning)
+    int foreign_msgs = 0;
     std::vector<long> entry_order; // event indices of E_ENTRY
     struct Act
     {
@@ -624,14 +626,19 @@ Verdict judge(const Plan &plan, const sim::Shm *shm, const ChildExit &ex, const 
             continue;
         int cid = pipeline_event_cid(e);
         if (e.kind == E_ENTRY) {
-            if (current != -1 || e.b != 0)
+            if (current != NONE || e.b != 0)
                 fail(v, "overlap",
                      "two messages inside the pipeline at once: call " + std::to_string(cid) + " entered (thread T"
                              + std::to_string(e.tid) + ") while call " + std::to_string(current) + " was inside");
             current = cid;
             entry_order.push_back(i);
             auto it = calls.find(cid);
-            if (it == calls.end()) {
+            if (cid < 0) {
+                // not one of the plan's messages: Qt itself logged through the installed handler
+                // (e.g. "QEventLoop: Cannot be used without QApplication" in the logger thread).
+                // It is a legitimate message; the model evaluates it from its observed content.
+                foreign_msgs++;
+            } else if (it == calls.end()) {
                 fail(v, "phantom", "pipeline entered by an unknown message id " + std::to_string(cid));
             } else {
                 Call &c = it->second;
@@ -656,7 +663,7 @@ Verdict judge(const Plan &plan, const sim::Shm *shm, const ChildExit &ex, const 
                     it->second.n_exit++;
                     it->second.exit = i;
                 }
-                current = -1;
+                current = NONE;
             } else if (e.kind == E_DELIVER) {
                 Act a;
                 a.sink = (int)e.a;
@@ -735,6 +742,22 @@ Verdict judge(const Plan &plan, const sim::Shm *shm, const ChildExit &ex, const 
     Model model;
     for (long idx : entry_order) {
         const sim::Event &e = shm->events[idx];
+        if ((int)e.a < 0) {
+            Content fc;
+            if (!parse_content(sim::ev_str(shm, e), fc))
+                continue;
+            Msg m;
+            m.cid = (int)e.a;
+            m.type = fc.type;
+            m.line = fc.line;
+            m.file = fc.file;
+            m.function = fc.function;
+            m.category = fc.category;
+            m.message = fc.message;
+            m.time_ms = fc.time_ms;
+            model.eval(plan.root, m);
+            continue;
+        }
         auto it = calls.find((int)e.a);
         if (it == calls.end() || it->second.entry != idx)
             continue;
@@ -898,6 +921,7 @@ Verdict judge(const Plan &plan, const sim::Shm *shm, const ChildExit &ex, const 
     v.probes["futex_blocked"] = shm->counters[sim::C_FUTEX_WAIT];
     v.probes["deliveries"] = (int)actual.size();
     v.probes["entries"] = (int)entry_order.size();
+    v.probes["messages_logged_by_qt_itself"] = foreign_msgs;
 
     // ---- asynchronous placement (C03, and async phases of C04) ------------------------------
     // A window [move end, stop end) with worker tid W: events of calls processed by W.
